@@ -327,6 +327,7 @@ func NewTransferQueue(dir Direction, manifest Manifest, remote string, options .
 	}
 
 	q.incoming = make(chan *objectTuple, q.bufferDepth)
+	verifhook.Event("queue.new", q, "")
 	q.collectorWait.Add(1)
 	q.errorwait.Add(1)
 	q.run()
